@@ -399,8 +399,6 @@ IDENT_RE = __import__("re").compile(r"^[A-Za-z@_](?:[-.]?[A-Za-z0-9@_$])*$")
 def finding_for(kind, f):
     """which open finding's class holds on this literal (by the Coq classifier flags of the oracle line)"""
     c = f.get("C", "")
-    if kind == K_TEXT and c == "1":
-        return "kf-c07-text-escape-dropped"
     if kind == K_BUTF8 and c == "1":
         return "kf-c07-bytes-escapes-not-processed"
     return None
@@ -411,7 +409,10 @@ def finding_for(kind, f):
 FIXED_CORPUS = [(K_FLOAT, "1e999", "fixed-corpus"), (K_FLOAT, "-1e999", "fixed-corpus"), (K_FLOAT, "1.7976931348623159e308", "fixed-corpus"),
                 (K_B16, "h'12\u00a034'", "fixed-corpus"), (K_B16, "h'12\u202834'", "fixed-corpus"), (K_B16, "h'12\x0c34'", "fixed-corpus"),
                 (K_B64, "b64'YQ\u00a0=='", "fixed-corpus"), (K_B64, "b64'YQ==YQ=='", "fixed-corpus"), (K_B64, "b64'YWE=YQ=='", "fixed-corpus"),
-                (K_B64, "b64'-_8=-_8='", "fixed-corpus")]
+                (K_B64, "b64'-_8=-_8='", "fixed-corpus"),
+                (K_TEXT, '"\\ud800"', "fixed-corpus"), (K_TEXT, '"\\uD800\\u0041"', "fixed-corpus"), (K_TEXT, '"\\u{110000}"', "fixed-corpus"),
+                (K_TEXT, '"\\udc00x"', "fixed-corpus"), (K_TEXT, '"\\uD800\\u{41}xyz"', "fixed-corpus"), (K_TEXT, '"\\uDC00\\uD800"', "fixed-corpus"),
+                (K_TEXT, '"\\u{D800}"', "fixed-corpus"), (K_TEXT, '"\\u{100000000}"', "fixed-corpus")]
 
 
 UINT_RE = __import__("re").compile(r"^(0[xX][0-9a-fA-F]+|0[bB][01]+|[1-9][0-9]*|0)$")
